@@ -33,7 +33,7 @@ RULE = ("each run (a fresh process image) draws a random Hermitian system with e
         "quantities, band selections, k_batch, user tabulators and serial-or-simulated-ray evaluation; distinct = hash of "
         "(system, path, sequence of calls with their arguments, ray schedule); non-trivial = history of at least 2 calls")
 PROBES = ["path_calls", "point_calls", "parallel_path_call", "band_selection_call", "call_after_band_selection", "user_tabulator_call",
-          "path_with_break", "path_points_checked", "path_construction_checked", "k_batch_smaller_than_path"]
+          "path_with_break", "path_points_checked", "path_construction_checked", "k_batch_smaller_than_path", "two_systems"]
 REAL = ["evaluate_k / evaluate_k_path", "calculators.tabulate (Tabulator, TabulatorAll, module-global named quantities)",
         "run_grid.run / process on a Path", "Path.from_nodes / get_K_list / get_refined / getKline", "KpointBZpath", "Data_K_R (k-list and FFT)",
         "TABresult.__add__/self_to_path/get_data"]
@@ -162,6 +162,14 @@ def _simulate(dec, rec, tier, scr):
     num_wann = 2 + dec("sys/num_wann", 3)
     system = zoo.make_random_system(1 + dec("sys/seed", 500), num_wann=num_wann, nRvec=6 + dec("sys/nR", 6), max_R=2,
                                     berry=True, spin=True)
+    # a second system of the same sizes (num_wann, number of R-vectors) but other R-vectors and matrices: calls of the
+    # history may address either - whatever one call leaves behind in the process must not leak into a call on the other
+    two = bool(dec.chance("sys/two", 1, 2))
+    systems = [system]
+    if two:
+        systems.append(zoo.make_random_system(501 + dec("sys/seedB", 500), num_wann=num_wann, nRvec=6 + dec("sys/nR", 6), max_R=2,
+                                              berry=True, spin=True))
+        rec.fire("two_systems")
     path, nodes, labels, nk = draw_path(dec, system)
     if path.breaks:
         rec.fire("path_with_break")
@@ -182,8 +190,8 @@ def _simulate(dec, rec, tier, scr):
     if v:
         return finish(v)
     # ---------------------------------------------------------------- reference first
-    ref = reference(system, K, QNAMES)
-    scale = {q: max(1e-12, float(np.max(np.abs(a)))) for q, a in ref.items()}
+    refs = [reference(sy, K, QNAMES) for sy in systems]
+    scales = [{q: max(1e-12, float(np.max(np.abs(a)))) for q, a in r.items()} for r in refs]
 
     clock = VClock()
     ray = SimRay(dec, rec, clock)
@@ -192,6 +200,9 @@ def _simulate(dec, rec, tier, scr):
     with Harness(dec, rec, clock=clock, ray=ray, snapshot_klist=False):
         for step in range(nops):
             kind = ["path", "point"][dec.pick(f"hist/{step}/kind", [3, 2])]
+            isys = dec(f"hist/{step}/sys", len(systems))
+            system, ref, scale = systems[isys], refs[isys], scales[isys]
+            which = f"system {'AB'[isys]}, " if two else ""
             nq = 1 + dec(f"hist/{step}/nq", 3)
             qs = sorted({QNAMES[dec(f"hist/{step}/q/{i}", len(QNAMES))] for i in range(nq)})
             sel = dec.pick(f"hist/{step}/bands", [3, 2, 1])
@@ -214,11 +225,11 @@ def _simulate(dec, rec, tier, scr):
                     stub = zoo.StubTab(100 + step, nband=num_wann, rank=1)
                     tabs = {"user": stub}
                     rec.fire("user_tabulator_call")
-                desc = (f"call {step}: evaluate_k_path(quantities={qs}, ibands={ibands}, parallel={parallel}, k_batch={k_batch}"
+                desc = (f"call {step}: evaluate_k_path({which}quantities={qs}, ibands={ibands}, parallel={parallel}, k_batch={k_batch}"
                         f"{', tabulators={user: stub}' if user_tab else ''})")
-                sample["history"].append(dict(call="evaluate_k_path", quantities=qs, ibands=ibands, parallel=parallel,
+                sample["history"].append(dict(call="evaluate_k_path", system="AB"[isys], quantities=qs, ibands=ibands, parallel=parallel,
                                               k_batch=k_batch, user_tabulator=user_tab))
-                hist.append(("path", tuple(qs), tuple(want_b), parallel, k_batch, user_tab))
+                hist.append(("path", isys, tuple(qs), tuple(want_b), parallel, k_batch, user_tab))
                 rec.fire("path_calls")
                 if parallel:
                     rec.fire("parallel_path_call")
@@ -257,9 +268,9 @@ def _simulate(dec, rec, tier, scr):
             else:
                 ik = dec(f"hist/{step}/ik", len(K))
                 k = K[ik]
-                desc = f"call {step}: evaluate_k(k=path point {ik} {k.tolist()}, quantities={qs}, iband={ibands})"
-                sample["history"].append(dict(call="evaluate_k", point=ik, quantities=qs, iband=ibands))
-                hist.append(("point", ik, tuple(qs), tuple(want_b)))
+                desc = f"call {step}: evaluate_k({which}k=path point {ik} {k.tolist()}, quantities={qs}, iband={ibands})"
+                sample["history"].append(dict(call="evaluate_k", system="AB"[isys], point=ik, quantities=qs, iband=ibands))
+                hist.append(("point", isys, ik, tuple(qs), tuple(want_b)))
                 rec.fire("point_calls")
                 try:
                     with zoo.quiet():
